@@ -106,7 +106,15 @@ def run_clone_op(h, r):
     src_c, src_i = C.canon(module), C.identity_snapshot(module)
     op_c = C.canon(op)
     wr = r.get("without_regions")
-    copy = op.clone_without_regions() if wr else op.clone()
+    first_copy = None
+    if r.get("shared_mappers"):
+        # the mappers are in/out parameters: cloning the same op again with the same dictionaries
+        # must still give a copy that only refers to itself
+        vm, bm = {}, {}
+        first_copy = op.clone_without_regions(vm, bm) if wr else op.clone(vm, bm)
+        copy = op.clone_without_regions(vm, bm) if wr else op.clone(vm, bm)
+    else:
+        copy = op.clone_without_regions() if wr else op.clone()
     nt = nontrivial_source(op) and not wr
     h.case(r, nt, label="clone_op_without_regions" if wr else "clone_op")
     if C.canon(module) != src_c or C.identity_snapshot(module) != src_i:
@@ -122,7 +130,17 @@ def run_clone_op(h, r):
     if C.object_ids(copy) & C.object_ids(module):
         h.mismatch({"check": "shared_object", "entry": "clone_op"}, r, "copy shares IR objects with the source")
         return
-    errs = invariants.check([module, copy])
+    if first_copy is not None:
+        h.count("shared_mappers")
+        if C.canon(first_copy) != exp:
+            h.mismatch({"check": "copy_not_equivalent", "entry": "clone_op_shared_mappers", "which": "first"}, r,
+                       C.first_diff(exp, C.canon(first_copy)))
+            return
+        if C.object_ids(copy) & C.object_ids(first_copy):
+            h.mismatch({"check": "shared_object", "entry": "clone_op_shared_mappers"}, r,
+                       "two copies made with the same mapper dictionaries share IR objects")
+            return
+    errs = invariants.check([module, copy] + ([first_copy] if first_copy is not None else []))
     if errs:
         h.mismatch({"check": "invariant", "entry": "clone_op", "code": errs[0][0]}, r, str(errs[:3]))
         return
@@ -297,6 +315,7 @@ def checks(h):
     mods = irgen.module_recipes(depth=2, max_ops=3, max_blocks=3)
     s_op = st.fixed_dictionaries({"kind": st.just("clone_op"), "mod": mods, "op": st.integers(0, 60),
                                   "without_regions": st.booleans(), "edit_source": st.booleans(),
+                                  "shared_mappers": st.booleans(),
                                   "edits": edits})
     s_into = st.fixed_dictionaries({
         "kind": st.just("clone_into"), "mod": mods, "src": st.integers(0, 40),
